@@ -64,6 +64,12 @@ def derive_pair(rng, sigma):
     """(r1, r2, relation known by construction or None)."""
     r = rc.rand_ast(rng, sigma, rng.choice([1, 2, 2, 3]), p_prod=0.1, prod_budget=[1])
     k = rng.random()
+    if k < 0.06:
+        # upper bound 0: exactly the empty string, whatever the operand
+        return ("rep", r, 0, 0), ("eps",), "eq"
+    if k < 0.09:
+        s = rc.rand_ast(rng, sigma, 2, p_prod=0.0)
+        return ("cat", ("rep", r, 0, 0), s), s, "eq"
     if k < 0.12:
         return r, ("union", r, r), "eq"
     if k < 0.22:
@@ -176,8 +182,6 @@ def run(ctx):
     for _ in range(ctx.n(260, 5000)):
         sigma = rng.choice(["a", "ab", "ab", "abc"])
         r1, r2, known = derive_pair(rng, sigma)
-        while rc.has_zero_upper(r1) or rc.has_zero_upper(r2):     # that shape is C10's business
-            r1, r2, known = derive_pair(rng, sigma)
         if rng.random() < 0.3:
             r1, r2 = r2, r1
             known = {"eq": "eq", "sub": "sup", "sup": "sub", None: None}[known]
